@@ -90,6 +90,7 @@ def generate(check, tier, seed, families=("exh", "sweep", "sim"), sim_num=None, 
         p["id"] = i + 1
         p["stmts"] = render.stmts_of(p["out"])
         p["src"] = render.free_text(p["stmts"])
+        p["reorders"] = render.reorders(p["out"])
         if render.needs08(p["out"]) != p["needs08"]:
             raise MachineryError("needs08 of the specification and of the catalogue disagree for %s" % p["src"])
     return progs
